@@ -12,6 +12,7 @@ CONSTANTS
   ActiveOn = FALSE
   AdminOn = FALSE
   MarkOn = TRUE
+  BadOpsOn = FALSE
   Outcomes = {"ok", "fail", "hold"}
 INIT Init
 NEXT Next
